@@ -45,3 +45,60 @@
             Ph::SHAKE128 => stream_take(shake128(m), 0, 32),
         }
     }
+    // ---- A-hash: mirrors of the sha2 / sha3 hasher objects used by hash_message (opaque; absorbed input is ghost state)
+    #[verifier::external_body]
+    pub struct Sha256 { _p: [u8; 0] }
+    #[verifier::external_body]
+    pub struct Sha512 { _p: [u8; 0] }
+    #[verifier::external_body]
+    pub struct Shake128 { _p: [u8; 0] }
+    pub trait Digest: Sized {
+        spec fn absorbed(&self) -> Seq<u8>;
+        fn update(&mut self, data: &[u8])
+            ensures final(self).absorbed() == old(self).absorbed() + data@;
+    }
+    impl Sha256 {
+        #[verifier::external_body]
+        pub fn new() -> (h: Sha256) ensures h.absorbed() == Seq::<u8>::empty() { unimplemented!() }
+        #[verifier::external_body]
+        pub fn finalize(self) -> (d: [u8; 32]) ensures d@ == sha256(self.absorbed()) { unimplemented!() }
+    }
+    impl Digest for Sha256 {
+        uninterp spec fn absorbed(&self) -> Seq<u8>;
+        #[verifier::external_body]
+        fn update(&mut self, data: &[u8]) { unimplemented!() }
+    }
+    impl Sha512 {
+        #[verifier::external_body]
+        pub fn new() -> (h: Sha512) ensures h.absorbed() == Seq::<u8>::empty() { unimplemented!() }
+        #[verifier::external_body]
+        pub fn finalize(self) -> (d: [u8; 64]) ensures d@ == sha512(self.absorbed()) { unimplemented!() }
+    }
+    impl Digest for Sha512 {
+        uninterp spec fn absorbed(&self) -> Seq<u8>;
+        #[verifier::external_body]
+        fn update(&mut self, data: &[u8]) { unimplemented!() }
+    }
+    impl Shake128 {
+        pub uninterp spec fn absorbed(&self) -> Seq<u8>;
+        #[verifier::external_body]
+        pub fn default() -> (h: Shake128) ensures h.absorbed() == Seq::<u8>::empty() { unimplemented!() }
+        #[verifier::external_body]
+        pub fn update(&mut self, data: &[u8]) ensures final(self).absorbed() == old(self).absorbed() + data@ { unimplemented!() }
+        #[verifier::external_body]
+        pub fn finalize_xof(self) -> (x: XofS) ensures x.stream() == shake128(self.absorbed()), x.pos() == 0 { unimplemented!() }
+    }
+    // reader whose `read` takes a slice (hash_message reads into &mut phm[0..32])
+    #[verifier::external_body]
+    pub struct XofS { _inner: [u8; 0] }
+    impl XofS {
+        pub uninterp spec fn stream(&self) -> spec_fn(int) -> u8;
+        pub uninterp spec fn pos(&self) -> int;
+        #[verifier::external_body]
+        pub fn read(&mut self, buf: &mut [u8])
+            ensures
+                final(self).stream() == old(self).stream(),
+                final(self).pos() == old(self).pos() + old(buf).len(),
+                final(buf)@ == stream_take(old(self).stream(), old(self).pos(), old(buf).len() as int),
+        { unimplemented!() }
+    }
